@@ -6,12 +6,17 @@ package quic
 // Conn, frames parsed back from a real packetWriter, fates through the real handleAckOrLoss).
 //   send side  (shape B): VerifC32_send, VerifC32_code — the wire observer qsSender.observe asserts that no STREAM
 //                         frame follows a reset and that every RESET_STREAM states final size == highest offset sent.
+//   send side  (shape I): VerifC32_resetstep — one packet (ordinary or PTO probe) from an arbitrary state of a reset
+//                         stream (RESET_STREAM unsent / in flight / acknowledged, FIN and opening in any state).
 //   receive side (shape B): VerifC32_recv — STREAM/RESET_STREAM frames around the known final size, Read/CloseRead.
 //   receive side (shape I, full 62-bit width): VerifC32_bounds (checkStreamBounds), VerifC32_reset (handleReset).
 //
 // Sensitivity (sh mut.sh, all caught):
 //   stream.go appendOutFramesLocked: RESET_STREAM final size `s.outmaxsent` -> `s.out.end`          caught by VerifC32_send
 //   stream.go appendOutFramesLocked: `if s.outreset.isSet()` -> `... && !pto` (STREAM after reset)  caught by VerifC32_send
+//   seeded C32-A: appendOutFramesLocked `if outreset.isSet() {if shouldSendPTO {...}; return true}` flattened to
+//     `if outreset.shouldSendPTO(pto) {...; return true}` (STREAM+FIN on a PTO probe after the RESET_STREAM was acked)
+//     caught by VerifC32_resetstep and by the settle phase of VerifC32_send
 //   stream.go checkStreamBounds: `fin && insize != -1 && end != insize` -> `end > insize`           caught by VerifC32_recv
 //     (and by VerifC32_bounds / VerifC32_reset, which state the verdict at full width)
 
@@ -23,6 +28,7 @@ import (
 func init() {
 	vfRegister("VerifC32_send", VerifC32_send)
 	vfRegister("VerifC32_code", VerifC32_code)
+	vfRegister("VerifC32_resetstep", VerifC32_resetstep)
 	vfRegister("VerifC32_recv", VerifC32_recv)
 	vfRegister("VerifC32_bounds", VerifC32_bounds)
 	vfRegister("VerifC32_reset", VerifC32_reset)
@@ -56,8 +62,37 @@ func VerifC32_send() {
 	for i := 0; i < k2; i++ {
 		w.step(qsOpWrite | qsOpFlush | qsOpMaxStreamData | qsOpReset | qsOpStopSending | qsOpEmit | qsOpEmitPTO | qsOpFate)
 	}
+	w.prune = false
 	w.do(qsAlt{qsOpEmit, 0, 1})
-	vfAssert(g.nreset >= 1, "RESET_STREAM is on the wire once the conn had room for it")
+	if g.s.outclosed.isReceived() && g.s.outacked.isrange(0, g.s.out.end) {
+		// The peer acknowledged the FIN and every byte: the stream ended cleanly ("Data Recvd", RFC 9000 3.1) and
+		// quic sends no RESET_STREAM for it any more, even if Reset was called before that acknowledgement arrived.
+		vfReach("reset-of-a-finished-stream")
+	} else {
+		vfAssert(g.nreset >= 1, "RESET_STREAM is on the wire once the conn had room for it")
+	}
+	// settle: every packet still in flight meets its fate (quick: all acked or all lost; thorough: each one acked or
+	// lost, any combination), then the conn fills a PTO probe (some unrelated ack-eliciting packet is unacknowledged)
+	// and one more ordinary packet. qsSender.observe checks every frame: whatever the peer acknowledged, a reset
+	// stream carries no STREAM frame and its RESET_STREAM keeps stating the highest offset sent.
+	a := 0
+	if vfBool("lost") {
+		a = 1
+	}
+	for len(w.em.inflight) > 0 {
+		w.do(qsAlt{qsOpFate, 0, a})
+		if vfTier() > 0 && len(w.em.inflight) > 0 {
+			a = 0
+			if vfBool("lost") {
+				a = 1
+			}
+		}
+	}
+	w.do(qsAlt{qsOpEmitPTO, 0, 1})
+	w.do(qsAlt{qsOpEmit, 0, 1})
+	if g.s.outreset.isReceived() {
+		vfReach("probe-after-acked-reset")
+	}
 	vfAssert(g.maxSent == sentBefore, "the highest offset sent does not move after the reset")
 	vfObserve("final", uint64(g.maxSent))
 	if sentBefore > 0 {
@@ -68,6 +103,88 @@ func VerifC32_send() {
 	if g.nreset > 1 {
 		vfReach("reset-retransmitted")
 	}
+	vfReach("end")
+}
+
+// VerifC32_resetstep (shape I): ONE packet, ordinary or PTO probe, filled by the real Conn.appendStreamFrames from an
+// arbitrary state of a stream whose send side was reset. The pre-state is built directly; its invariant is what
+// resetInternal establishes and what the operations still accepted by a reset stream (CloseWrite -> flushLocked,
+// handleMaxStreamData, ack/loss of earlier packets) can change:
+//   out.start == out.end, outmaxsent <= outflushed <= out.end, outmaxsent <= outwin,
+//   outunsent empty or one range inside [outmaxsent, min(outwin, outflushed)),
+//   outreset in {unsent, sent, received}, outclosed / outopened / outblocked in any state.
+// (VerifC32_send asserts along real histories that outmaxsent is the highest offset on the wire.)
+// Step relation = the statement: the packet carries no STREAM frame, a RESET_STREAM in it states final size ==
+// outmaxsent and the recorded code, the stream stays reset and outmaxsent does not move.
+func VerifC32_resetstep() {
+	maxsent := int64(vfLen("outmaxsent", 0, 2))
+	flushed := maxsent + int64(vfLen("flushed-not-sent", 0, 1))
+	end := flushed + int64(vfLen("not-flushed", 0, 1))
+	outwin := maxsent + int64(vfLen("window-room", 0, 1+vfTier()))
+	w := qsNewSender(4, outwin, 8, 1)
+	w.avails = []int{3, 20} // a RESET_STREAM frame takes 4 bytes here
+	g := w.gs[0]
+	s := g.s
+	st := func(label string, lo, hi int) sentVal { // 0 unset, 1 unsent, 2 sent, 3 received
+		switch vfLen(label, lo, hi) {
+		case 0:
+			return sentValUnset
+		case 1:
+			return sentValUnsent
+		case 2:
+			return sentValSent | 0 // carried by packet 0, which is still in flight
+		}
+		return sentValReceived
+	}
+	s.outgate.lock()
+	s.out.start, s.out.end = end, end
+	s.outflushed = flushed
+	s.outmaxsent = maxsent
+	s.outwin = outwin
+	if lim := min(outwin, flushed); maxsent < lim && vfBool("late-unsent") {
+		// CloseWrite or MAX_STREAM_DATA after the reset scheduled never-sent bytes
+		s.outunsent.add(maxsent, lim)
+	}
+	s.outreset = st("outreset", 1, 3)
+	s.outresetcode = 7
+	s.outclosed = st("outclosed", 0, 3)
+	s.outopened = st("outopened", 0, 3)
+	s.outblocked = st("outblocked", 0, 1+vfTier())
+	was := s.outreset
+	s.outUnlock()
+	w.c.streams.outflow.used = maxsent
+	w.em.pnum = 1
+	g.limit, g.maxSent, g.data = outwin, maxsent, make([]byte, end)
+	g.closed, g.reset, g.code = s.outclosed.isSet(), true, 7
+	pto := vfBool("pto")
+	kind := qsOpEmit
+	if pto {
+		kind = qsOpEmitPTO
+	}
+	room := vfChoice("room", 2)
+	w.do(qsAlt{kind, 0, room}) // qsSender.observe: no STREAM frame, RESET_STREAM final size == highest offset sent
+	vfAssert(s.outreset.isSet(), "the stream stays reset")
+	vfAssert(s.outmaxsent == maxsent && g.maxSent == maxsent, "the highest offset sent does not move after the reset")
+	// A stream whose FIN and data were all acknowledged before the reset has ended cleanly: quic sends no
+	// RESET_STREAM for it (here: FIN acknowledged on an empty stream; outacked is not part of the pre-state).
+	finished := s.outclosed.isReceived() && end == 0
+	due := was.shouldSendPTO(pto)
+	if room == 1 {
+		if finished && !pto {
+			vfReach("reset-of-a-finished-stream")
+		} else if due {
+			vfAssert(g.nreset == 1, "a RESET_STREAM that is due is in the packet")
+			vfReach("reset-sent")
+		} else {
+			vfAssert(g.nreset == 0, "no RESET_STREAM when none is due")
+		}
+	} else {
+		vfAssert(g.nreset == 0 && s.outreset == was, "a packet without room leaves the reset pending")
+	}
+	if was.isReceived() && pto {
+		vfReach("probe-after-acked-reset")
+	}
+	vfObserve("nreset", uint64(g.nreset))
 	vfReach("end")
 }
 
